@@ -6,7 +6,7 @@ from typing import Dict, List, Optional, Set
 
 from ..excflow import ExcFlow, header_exprs, walk_expr
 from ..model import AnalysisError, ClassInfo, FuncInfo, Program, dotted, own_nodes, unparse
-from ..symex import facts_for, phi_alternatives
+from ..symex import always_leaves, facts_for, phi_alternatives
 from .common import U, bind_args, const_value, is_self_attr, returns_of, short, np_call
 
 EVAL = "pygradflow.eval.EvalError"
@@ -144,10 +144,12 @@ def failure_result(prog: Program, rep, x: ExcFlow) -> None:
     handlers = [h for t in tries for h in t.handlers]
     scr = prog.func("pygradflow.step.step_control.StepControlResult.__init__")
     seen = 0
+    seen_classes = set()
     for h in handlers:
         hcs = x.handler_classes(cs, h)
         if not any(x.is_subclass(k, hc) for hc in hcs for k in INTERNAL):
             continue
+        seen_classes.update(k for k in INTERNAL if any(x.is_subclass(k, hc) for hc in hcs))
         seen += 1
         last = h.body[-1] if h.body else None
         if not isinstance(last, ast.Return) or last.value is None:
@@ -180,7 +182,7 @@ def failure_result(prog: Program, rep, x: ExcFlow) -> None:
             and U(lam.func.value) == "self" and len(lam.args) == 1 and _is_inverse_of(lam.args[0], dt_param)
         rep.check(ok_l, "failure-result-lambda", cs.qualname, short(last),
                   f"the failure result's lambda is update_stepsize_after_fail(1/{dt_param}) of the failed trial (found `{U(lam)}`)", cs.loc(last))
-    rep.pin("failure handlers in compute_step", seen, 2)
+    rep.pin("internal failure classes with a handler in compute_step (one handler may serve several)", len(seen_classes), 2)
     sc = prog.cls("pygradflow.step.step_control.StepController")
     for m in prog.dispatch(sc, "update_stepsize_after_fail"):
         rs = returns_of(m)
@@ -221,7 +223,15 @@ def validate_before_accept(prog: Program, rep, x: ExcFlow) -> None:
             if b and isinstance(b["accepted"], ast.Constant) and b["accepted"].value is False:
                 rep.ok("validate-before-accept", cs.short, "literal non-accepted result needs no validation")
                 continue
-        in_try = [t for t in si.tries if any(x.is_subclass(EVAL, hc) for h in t.handlers for hc in x.handler_classes(cs, h))]
+        def converting(t):
+            return any(x.is_subclass(EVAL, hc) for h in t.handlers for hc in x.handler_classes(cs, h))
+        in_try = [t for t in si.tries if converting(t)]
+        # the return may also follow the try statement, provided every handler of that try leaves the function (so that the
+        # statement after the try is reached only when the body completed normally)
+        for q in ff.order:
+            if isinstance(q.stmt, ast.Try) and q.index < si.index and q.loops == si.loops and converting(q.stmt) and q.stmt not in in_try \
+                    and all(always_leaves(h.body) for h in q.stmt.handlers) and not q.stmt.finalbody and all(f in si.facts for f in q.facts):
+                in_try.append(q.stmt)
         checks = []
         for s in ff.order:
             st = s.stmt
